@@ -105,7 +105,8 @@ def decode_template(bs, specs):
                 sb = bytes.fromhex(hx)
                 if bs[i:i + len(sb)] == sb: hit = (name, len(sb)); break
             if hit is None:
-                raise Broken('format template placeholder not in the calibrated whitelist: ' + bs[i:].hex())
+                from .mirsym import Unmodelled
+                raise Unmodelled('format template placeholder not in the calibrated whitelist: ' + bs[i:].hex())
             out.append(('arg', hit[0])); i += hit[1]
     return out
 
